@@ -16,7 +16,7 @@
      component's publishResponse mapping (internal/aaa/component.go handleAAARequest) as a pure function.
 
    [rep : bool] selects the variant: true = repaired (the behaviour the theorems are proved for; equals the
-   code with fixes/C03_*.patch applied), false = defective (the code as it is today). *)
+   /repo HEAD: fixes 8b06a36, 99f4417, c6c869c), false = the code before those fixes (historical, only [_refuted] witnesses). *)
 From OV Require Import Common.Base.
 
 (* ------------------------------------------------------------------ *)
@@ -172,7 +172,7 @@ Definition fsm_input (rfc : bool) (c : cframe) (f : fsm) : fsm * list act :=
   | FUnk => (f, [Send cCodeRej])
   end.
 
-(* variant: [vrep] repaired session logic (true) or today's (false); [vrfc] FSM table flavour *)
+(* variant: [vrep] session logic of /repo HEAD (true) or of the code before the C03 fixes (false); [vrfc] FSM table flavour *)
 Record vr := mkV { vrep : bool; vrfc : bool }.
 
 (* ------------------------------------------------------------------ *)
